@@ -977,7 +977,22 @@ impl<
         }
 
         if max_shard as f64 > 1.01 * self.num_keys as f64 / shard_edge.num_shards() as f64 {
-            // This might sometimes happen with small sharded graphs
+            // This might sometimes happen with small sharded graphs. It also
+            // happens, with every seed, when a key is repeated so many times
+            // that its shard is always too big: if we are checking for
+            // duplicates we look for them in the largest shards, so that the
+            // retries are bounded as for any other duplicate key.
+            if self.check_dups {
+                for shard in shard_store.into_iter() {
+                    if shard.len() == max_shard {
+                        let mut shard = Arc::try_unwrap(shard).unwrap_or_else(|s| s.to_vec());
+                        shard.radix_sort_builder().sort();
+                        if shard.windows(2).any(|w| w[0].sig == w[1].sig) {
+                            return Err(SolveError::DuplicateSignature.into());
+                        }
+                    }
+                }
+            }
             Err(SolveError::MaxShardTooBig.into())
         } else {
             let data = new_data(
